@@ -1,4 +1,6 @@
 import Ruint.Model.Float
+import Ruint.Gen.WordsFloat
+import Ruint.Gen.WordsToFloat
 /-! Driver for C18: evaluates the float-conversion models (`Ruint.Float.*`) and the spec column.
 
 * `tryf64/tryf32`: model = full outcome incl. wrapped payloads; spec = predicate on the implementation's
@@ -81,25 +83,40 @@ def judgeTo (f : Fmt) (v : Nat) (impl : String) : String :=
     else if r = f.infBits ∧ v < infThreshold f then "pred:false infinity below the rounding threshold"
     else "pred:true"
 
+/-- `TryFrom<f64>` as GENERATED from `src/from.rs` (`Gen/WordsFloat`, value mode over the binary64 model), read back into the
+    model's result type; `Props/C18.gen_try_from_f64_eq` proves it equal to `tryFromF64`. -/
+def genTry (bits x : Nat) : Res :=
+  match Ruint.Gen.val_try_from_f64 3 bits 0 x with
+  | none => .panic
+  | some (.ok v) => .ok v
+  | some (.error (0, _, w)) => .tooLarge w
+  | some (.error (1, _, w)) => .negative w
+  | some (.error _) => .notANumber
+
+/-- `f64::from(&Uint)` / `f32::from(&Uint)` as GENERATED from `src/from.rs` (`Gen/WordsToFloat`, over the generated
+    `most_significant_bits`); `Props/C18.gen_to_float_eq` proves them equal to `toFloatV`. -/
+def genToFloat (f : Fmt) (bits : Nat) (l : List Nat) : Nat :=
+  if f.mb = 52 then Ruint.Gen.f64_from_uint bits (nlimbs bits) l else Ruint.Gen.f32_from_uint bits (nlimbs bits) l
+
 def handle (args : List String) (impl : String) : String × String :=
   match args with
   | [op, bs, xs] =>
     let bits := parseDec bs
     let x := parseHex xs
     match op with
-    | "tryf64" => (resStr (tryFromF64 bits x), judgeTry bits (decode b64 x) impl)
-    | "tryf32" => (resStr (tryFromF32 bits x), judgeTry bits (decode b32 x) impl)
-    | "satf64" => (optStr (saturating bits (tryFromF64 bits x)), specSat bits (decode b64 x))
-    | "satf32" => (optStr (saturating bits (tryFromF32 bits x)), specSat bits (decode b32 x))
-    | "wrapf64" => (optStr (wrapping (tryFromF64 bits x)), specWrap bits (decode b64 x))
-    | "wrapf32" => (optStr (wrapping (tryFromF32 bits x)), specWrap bits (decode b32 x))
-    | "fromf64" => (optStr (fromOrPanic (tryFromF64 bits x)), specFrom bits (decode b64 x))
-    | "fromf32" => (optStr (fromOrPanic (tryFromF32 bits x)), specFrom bits (decode b32 x))
+    | "tryf64" => (resStr (genTry bits x), judgeTry bits (decode b64 x) impl)
+    | "tryf32" => (resStr (genTry bits (f32ToF64 x)), judgeTry bits (decode b32 x) impl)
+    | "satf64" => (optStr (saturating bits (genTry bits x)), specSat bits (decode b64 x))
+    | "satf32" => (optStr (saturating bits (genTry bits (f32ToF64 x))), specSat bits (decode b32 x))
+    | "wrapf64" => (optStr (wrapping (genTry bits x)), specWrap bits (decode b64 x))
+    | "wrapf32" => (optStr (wrapping (genTry bits (f32ToF64 x))), specWrap bits (decode b32 x))
+    | "fromf64" => (optStr (fromOrPanic (genTry bits x)), specFrom bits (decode b64 x))
+    | "fromf32" => (optStr (fromOrPanic (genTry bits (f32ToF64 x))), specFrom bits (decode b32 x))
     | "tof64" | "tof64v" | "tof32" | "tof32v" =>
       let f := if op = "tof64" || op = "tof64v" then b64 else b32
       let l := toLimbs (nlimbs bits) x
       let hyp := decide (msb l = msbSpec x)
-      (fstr f (toFloat f l),
+      (fstr f (genToFloat f bits l),
         if hyp then judgeTo f x impl else "pred:false hyp msb_eq_spec fails")
     | "msb" =>
       let l := toLimbs (nlimbs bits) x
@@ -124,7 +141,7 @@ def handle (args : List String) (impl : String) : String × String :=
       let f := if op = "mono64" then b64 else b32
       let l1 := toLimbs (nlimbs bits) x
       let l2 := toLimbs (nlimbs bits) y
-      let m := fstr f (toFloat f l1) ++ " " ++ fstr f (toFloat f l2)
+      let m := fstr f (genToFloat f bits l1) ++ " " ++ fstr f (genToFloat f bits l2)
       let spec := match (impl.splitOn " ").filter (· ≠ "") with
         | [r1, r2] =>
           if r1 = "nan" || r2 = "nan" then "pred:false nan"
